@@ -43,11 +43,16 @@ SHAPES = {2: [(24, 28), (26, 24)], 3: [(20, 22, 21), (22, 20, 21)]}
 
 def _variants(tier):
     # the replicate index only spreads the work over more worker processes (it enters the derived seed)
-    return [[d, p, r] for d in (2, 3) for p in ("float32", "float64") for r in range(3)]
+    return [[d, p, r] for d in (2, 3) for p in ("float32", "float64") for r in range(4)]
+
+
+ROD_GRIDS = {2: ["element", "edge", "nodal"], 3: ["surface", "surface_caps", "element", "nodal"]}
+ROD_ELEMS = 5  # one marker count per grid type: the numba communicator kernels are compiled per (dx, number of markers)
 
 
 def _strategy(tier, var):
     dim, dtype = var[0], var[1]
+    body_kind = "rod" if len(var) > 2 and var[2] == 3 else "rigid"
 
     @st.composite
     def case(draw):
@@ -77,7 +82,12 @@ def _strategy(tier, var):
                 # rolling checkpoints: this many earlier steps wrote the SAME file names before step k did (a fixed
                 # "latest" name, or the %04d index computed from a coarse time bucket as the examples do), through the same
                 # long-lived IO objects or through new ones
-                "rolling": draw(st.sampled_from([0, 0, 1, 2, 3])), "reuse_io": draw(st.booleans())}
+                "rolling": draw(st.sampled_from([0, 0, 1, 2, 3])), "reuse_io": draw(st.booleans()),
+                # body: rigid cylinder / sphere, or a Cosserat rod (generic bent pose, drawn forcing-grid class) whose nodes are
+                # integrated by the harness under the flow forces
+                "body": body_kind,
+                "rod": (draw(bodies.rod_spec(planar=dim == 2, max_elems=ROD_ELEMS)) if body_kind == "rod" else None),
+                "rod_grid": draw(st.sampled_from(ROD_GRIDS[dim])) if body_kind == "rod" else None}
 
     return case()
 
@@ -96,24 +106,45 @@ class Run:
             self.sim = simcfg.build_sim(cfg)
         shape = tuple(cfg["shape"])
         centre = np.array([shape[dim - 1 - c] * DX / 2 for c in range(dim)] + [0.0] * (3 - dim))
-        self.x0 = centre.copy()
-        self.body = bodies.make_rigid("cylinder2d" if dim == 2 else "sphere", {"radius": case["radius"], "length": 0.5, "breadth": 0.5})
-        self.body.position_collection[:, 0] = centre
-        v = np.array(case["body_v"], dtype=np.float64)
-        if dim == 2:
-            v[2] = 0.0
         self.slow = float(case.get("slow", 1.0))
-        self.body.velocity_collection[:, 0] = v * self.slow
-        self.body.omega_collection[:, 0] = [0.0, 0.0, case["omega"] * self.slow]
-        kw = dict(rigid_body=self.body, eul_grid_forcing_field=self.sim.eul_grid_forcing_field,
+        kw = dict(eul_grid_forcing_field=self.sim.eul_grid_forcing_field,
                   eul_grid_velocity_field=self.sim.velocity_field, virtual_boundary_stiffness_coeff=case["coeffs"][0],
                   virtual_boundary_damping_coeff=case["coeffs"][1], dx=self.sim.dx, grid_dim=dim, real_t=real_t,
                   start_time=cfg["time0"])
-        with ctx.repo_call("constructing the flow-body interaction"):
+        if case.get("body", "rigid") == "rod":
+            spec = dict(case["rod"], n_elems=ROD_ELEMS, length=0.35 + 0.1 * (case["rod"]["length"] / 3.0),
+                        radius=0.03 + 0.1 * case["rod"]["radius"], taper="uniform",
+                        vel_scale=0.1 * case["rod"]["vel_scale"], omega_scale=0.25 * case["rod"]["omega_scale"],
+                        curvature=case["rod"]["curvature"])
+            self.body = bodies.make_rod(spec)
+            mid = self.body.position_collection.mean(axis=1)
+            self.body.position_collection[...] += (centre - mid)[:, None]
+            self.body.velocity_collection[...] *= self.slow
+            self.body.omega_collection[...] *= self.slow
+            g = case["rod_grid"]
+            cls = {"element": spi.CosseratRodElementCentricForcingGrid, "edge": spi.CosseratRodEdgeForcingGrid,
+                   "nodal": spi.CosseratRodNodalForcingGrid, "surface": spi.CosseratRodSurfaceForcingGrid,
+                   "surface_caps": spi.CosseratRodSurfaceForcingGrid}[g]
+            extra = {}
+            if g.startswith("surface"):
+                extra = {"surface_grid_density_for_largest_element": 4, "with_cap": g == "surface_caps"}
+            with ctx.repo_call(f"constructing the rod flow interaction ({g})"):
+                self.inter = spi.CosseratRodFlowInteraction(cosserat_rod=self.body, forcing_grid_cls=cls, **kw, **extra)
+        else:
+            self.body = bodies.make_rigid("cylinder2d" if dim == 2 else "sphere", {"radius": case["radius"], "length": 0.5, "breadth": 0.5})
+            self.body.position_collection[:, 0] = centre
+            v = np.array(case["body_v"], dtype=np.float64)
             if dim == 2:
-                self.inter = spi.RigidBodyFlowInteraction(forcing_grid_cls=spi.CircularCylinderForcingGrid, num_forcing_points=33, **kw)
-            else:
-                self.inter = spi.RigidBodyFlowInteraction(forcing_grid_cls=spi.SphereForcingGrid, num_forcing_points_along_equator=8, **kw)
+                v[2] = 0.0
+            self.body.velocity_collection[:, 0] = v * self.slow
+            self.body.omega_collection[:, 0] = [0.0, 0.0, case["omega"] * self.slow]
+            kw["rigid_body"] = self.body
+            with ctx.repo_call("constructing the flow-body interaction"):
+                if dim == 2:
+                    self.inter = spi.RigidBodyFlowInteraction(forcing_grid_cls=spi.CircularCylinderForcingGrid, num_forcing_points=33, **kw)
+                else:
+                    self.inter = spi.RigidBodyFlowInteraction(forcing_grid_cls=spi.SphereForcingGrid, num_forcing_points_along_equator=8, **kw)
+        self.x0 = self.body.position_collection.copy()
         self.fs = np.array(case["free_stream"], dtype=np.float64)
         self.dt = None
 
@@ -133,12 +164,12 @@ class Run:
         dt, b, it, dim = self.dt, self.body, self.inter, self.dim
         with ctx.repo_call("coupled step"):
             it.compute_flow_forces_and_torques()
-            acc = it.body_flow_forces[:, 0] / self.case["mass"] + self.case["spring"] * (self.x0 - b.position_collection[:, 0])
+            acc = it.body_flow_forces / self.case["mass"] + self.case["spring"] * (self.x0 - b.position_collection)
             if dim == 2:
                 acc[2] = 0.0
             acc *= self.slow
-            b.velocity_collection[:, 0] += dt * acc
-            b.position_collection[:, 0] += dt * b.velocity_collection[:, 0]
+            b.velocity_collection[...] += dt * acc
+            b.position_collection[...] += dt * b.velocity_collection
             it.time_step(dt=dt)
             it()
             self.sim.time_step(dt=dt, free_stream_velocity=self.fs)
@@ -272,7 +303,7 @@ def _resume_and_compare(case, ctx, A, dt, k, ckpt_dir):
         moving = float(np.max(np.abs(A.body.velocity_collection))) > 1e-6 * float(case.get("slow", 1.0))
         feature = bool(case["cfg"]["filter"]) or case["cfg"]["with_free_stream"]
         ctx.note(nontrivial=0 < k < K and moving and feature,
-                 labels=simcfg.config_labels(case["cfg"]) + [f"k{k}_of_{K}", f"body_speed_scale_{case.get('slow', 1.0):g}", "interior_checkpoint" if 0 < k < K else "edge_checkpoint"])
+                 labels=simcfg.config_labels(case["cfg"]) + [("rod_" + str(case.get("rod_grid"))) if case.get("body") == "rod" else "rigid_body", f"k{k}_of_{K}", f"body_speed_scale_{case.get('slow', 1.0):g}", "interior_checkpoint" if 0 < k < K else "edge_checkpoint"])
 
 
 # ------------------------------------------------------------------------------------------------
